@@ -15,7 +15,7 @@ func init() {
 	register(&Property{
 		ID:          "C20",
 		NeedSSA:     true,
-		Decided:     "Structural necessary conditions for history independence of the codecs: (dst) in every Encode/Decode method under compress/ the reusable output buffer is only truncated (dst[:0]), measured with cap(), passed to a helper obeying the same rule or to a listed library routine that treats it as scratch, or returned — its previous length and content are never observed and it is never re-sliced up to its old capacity; (pool) an object taken from a pool is not used after it was put back, an object that received Close is put back only after a Reset, the reset closure given to Pool.Get re-targets the stream, and a reader whose Reset failed is dropped instead of pooled; (stateless) Encode/Decode of every compress.Codec implementation write no field of the codec value (shared by all writers and readers) other than its pools; (tables) each entry of the codec table is the implementation whose CompressionCodec() returns its key. (result) every caller of Codec.Encode/Decode (and of the pooled Compressor/Decompressor) that passes a destination buffer takes the returned slice on every non-failing path (returns, stores, passes it on, or compares it by identity with the buffer); (pool, cont.) a function that returns memory held in a field of a pooled object replaces that field before the object is put back. (retry) from the failure edge of a fallible call in a loop some path leaves the loop without passing the call again; (pool, cont.) the decompressor pools a reader only on the nil edges of both its Reset error and the function's own error, and panics of the functions handed to Pool.Get are recovered by a deferred function. (bound) every buffer that reaches the destination argument of a block compressor (CompressBlock) is sized by the library's bound: made with a length computed from CompressBlockBound, returned by a module helper that was given that bound, or the caller's buffer re-sliced on the false edge of `cap(buf) < n` with n computed from the bound. (readtoeof) a function of the compress packages that reads a decompressing reader in a loop returns from it only on the non-nil edge of a test of the error that Read returned.",
+		Decided:     "Structural necessary conditions for history independence of the codecs: (dst) in every Encode/Decode method under compress/ the reusable output buffer is only truncated (dst[:0]), measured with cap(), passed to a helper obeying the same rule or to a listed library routine that treats it as scratch, or returned — its previous length and content are never observed and it is never re-sliced up to its old capacity; (pool) an object taken from a pool is not used after it was put back, an object that received Close is put back only after a Reset, the reset closure given to Pool.Get re-targets the stream, and a reader whose Reset failed is dropped instead of pooled; (stateless) Encode/Decode of every compress.Codec implementation write no field of the codec value (shared by all writers and readers) other than its pools; (tables) each entry of the codec table is the implementation whose CompressionCodec() returns its key. (result) every caller of Codec.Encode/Decode (and of the pooled Compressor/Decompressor) that passes a destination buffer takes the returned slice on every non-failing path (returns, stores, passes it on, or compares it by identity with the buffer); (pool, cont.) a function that returns memory held in a field of a pooled object replaces that field before the object is put back. (retry) from the failure edge of a fallible call in a loop some path leaves the loop without passing the call again, and no test on that path measures (len/cap) the buffer just allocated for the next attempt in place of the one that failed; (pool, cont.) the decompressor pools a reader only on the nil edges of both its Reset error and the function's own error, and panics of the functions handed to Pool.Get are recovered by a deferred function, registered after the deferred release so that the release runs once the panic has become the error result. (bound) every buffer that reaches the destination argument of a block compressor (CompressBlock) is sized by the library's bound: made with a length computed from CompressBlockBound, returned by a module helper that was given that bound, or the caller's buffer re-sliced on the false edge of `cap(buf) < n` with n computed from the bound. (readtoeof) a function of the compress packages that reads a decompressing reader in a loop returns from it only on the non-nil edge of a test of the error that Read returned.",
 		NotDecided:  "losslessness; the behaviour of the third-party compressors; sizing arithmetic of output buffers (for instance the worst-case bound an LZ4 block needs).",
 		Assumptions: []string{"the listed library routines (snappy, lz4, zstd EncodeAll/DecodeAll) treat dst as scratch per their documentation"},
 		Run:         runC20,
@@ -307,6 +307,70 @@ func poolRule(c *Ctx, rule string, pkgPrefixes []string) {
 		}
 		c.Check(rule, "Decompressor.Decode pools a reader only when the decode succeeded", fn.Pos(), okErr, "a reader that failed to decode its input is reset and returned to the pool: Reset need not clear everything a failure leaves behind (unread input, a sticky error), and the next Decode of a valid input on the same codec fails")
 	}
+	// … and that error is final when the release looks at it: deferred calls
+	// run last in first out, so the release is deferred BEFORE the recovery
+	// that turns a panic into the error result
+	if obj := p.LookupFunc("compress.(*Decompressor).Decode"); obj != nil {
+		fn := p.SSAFunc(obj)
+		var putDefer, recDefer *ssa.Defer
+		allCalls(fn, false, func(_ *ssa.Function, call ssa.CallInstruction) {
+			d, ok := call.(*ssa.Defer)
+			if !ok {
+				return
+			}
+			var target *ssa.Function
+			switch v := d.Call.Value.(type) {
+			case *ssa.Function:
+				target = v
+			case *ssa.MakeClosure:
+				target, _ = v.Fn.(*ssa.Function)
+			}
+			if target == nil {
+				target = d.Call.StaticCallee()
+			}
+			if target == nil || target.Blocks == nil {
+				return
+			}
+			seen := map[*ssa.Function]bool{}
+			var walk func(f *ssa.Function)
+			walk = func(f *ssa.Function) {
+				if f == nil || seen[f] || f.Blocks == nil {
+					return
+				}
+				seen[f] = true
+				allCalls(f, true, func(_ *ssa.Function, c2 ssa.CallInstruction) {
+					if b, ok := c2.Common().Value.(*ssa.Builtin); ok && b.Name() == "recover" {
+						recDefer = d
+					}
+					if isPut(c2) {
+						putDefer = d
+					}
+					if sc := c2.Common().StaticCallee(); sc != nil && inModule(sc) && fnPkgPath(sc) == fnPkgPath(fn) {
+						walk(sc)
+					}
+				})
+			}
+			walk(target)
+		})
+		if putDefer != nil && recDefer != nil {
+			before := false
+			if putDefer.Block() == recDefer.Block() {
+				for _, ins := range putDefer.Block().Instrs {
+					if ins == ssa.Instruction(putDefer) {
+						before = true
+						break
+					}
+					if ins == ssa.Instruction(recDefer) {
+						break
+					}
+				}
+			} else {
+				before = putDefer.Block().Dominates(recDefer.Block())
+			}
+			c.Check(rule, "Decompressor.Decode: the release that pools the reader runs after the panic recovery", recDefer.Pos(), before && putDefer != recDefer,
+				"the deferred release ("+p.Pos(putDefer.Pos())+") is registered after the deferred recovery, so it runs first and sees a nil error while a panic is still in flight: a reader that failed by panicking is returned to the pool and handed to the next Decode")
+		}
+	}
 	// failures reported by panicking inside the functions given to Pool.Get are recovered
 	for _, k := range []string{"compress.(*Decompressor).Decode", "compress.(*Compressor).Encode"} {
 		obj := p.LookupFunc(k)
@@ -346,7 +410,7 @@ func poolRule(c *Ctx, rule string, pkgPrefixes []string) {
 		})
 		c.Check(rule, k+": panics of the functions given to the pool are recovered", fn.Pos(), !panics || recovers, k+" hands functions that panic on failure to Pool.Get but defers nothing that recovers: a bad header in the input makes the codec panic instead of returning an error")
 	}
-	c.Min(rule, 6)
+	c.Min(rule, 7)
 }
 
 func derivesFromCallResult(v ssa.Value, call *ssa.Call, seen map[ssa.Value]bool) bool {
